@@ -80,6 +80,22 @@ pub fn exercise<K: Fam>(e: &Enr<K>) -> Result<u64, String> {
     g!("Debug", format!("{e:?}"));
     g!("Debug alt", format!("{e:#?}"));
     g!("Display", format!("{e}"));
+    // formatter flags: width, precision (shorter and longer than the text), fill/alignment, sign, zero
+    g!("Display {:.0}", format!("{e:.0}"));
+    g!("Display {:.5}", format!("{e:.5}"));
+    g!("Display {:.400}", format!("{e:.400}"));
+    g!("Display {:.*} len+1", format!("{:.*}", e.to_base64().len() + 1, e));
+    g!("Display {:>400}", format!("{e:>400}"));
+    g!("Display {:*^10.3}", format!("{e:*^10.3}"));
+    g!("Display {:<400.400}", format!("{e:<400.400}"));
+    g!("Display {:+}", format!("{e:+}"));
+    g!("Display {:#}", format!("{e:#}"));
+    g!("Display {:010}", format!("{e:010}"));
+    g!("Debug {:400.400?}", format!("{e:400.400?}"));
+    g!("Debug {:.0?}", format!("{e:.0?}"));
+    g!("Debug {:#010?}", format!("{e:#010?}"));
+    g!("NodeId Display flags", format!("{0:.0} {0:.400} {0:>80} {0:+} {0:#} {0:012} {0:*^9.2}", e.node_id()));
+    g!("NodeId Debug flags", format!("{0:.0?} {0:.400?} {0:>80?} {0:#?} {0:012?}", e.node_id()));
     g!("Clone+Eq", e.clone() == *e);
     g!("Hash", {
         let mut h = std::collections::hash_map::DefaultHasher::new();
@@ -94,7 +110,7 @@ pub fn exercise<K: Fam>(e: &Enr<K>) -> Result<u64, String> {
     g!("length", alloy_rlp::Encodable::length(e));
     g!("encode list", alloy_rlp::encode(&vec![e.clone()]));
     g!("NodeId Debug/Display", format!("{:?} {}", e.node_id(), e.node_id()));
-    Ok(n + 46)
+    Ok(n + 62)
 }
 
 struct V<'a> {
@@ -219,7 +235,8 @@ impl Property for C03 {
         let hdr = (0xb7..=0xffu8).flat_map(|a| {
             [0u8, 1, 0x37, 0x38, 0x7f, 0x80, 0xff].into_iter().map(move |b| Case::Wire(WireCase { bytes: vec![a, b, b, b, b, b, b, b, b, 0xc0], label: "header".into(), has_custom: false }))
         });
-        Box::new(ex.chain(small).chain(hdr))
+        let texts = crate::props::c12::head_edits().into_iter().map(Case::Text);
+        Box::new(ex.chain(small).chain(hdr).chain(texts))
     }
     fn fuzz_plans(&self) -> Vec<(&'static str, u64)> {
         vec![("wire_raw", 30000), ("history", 6000)]
